@@ -16,6 +16,8 @@ import (
 	"encoding/json"
 	"flag"
 	"fmt"
+	"io"
+	"log/slog"
 	"os"
 	"reflect"
 	"sort"
@@ -281,6 +283,12 @@ func (r *rec) Receive(c *actor.Context) {
 
 	if kind == "Started" {
 		for _, k := range h.cfg.Actors[r.name].Kids {
+			h.mu.Lock()
+			ever := h.incs[k] > 0
+			h.mu.Unlock()
+			if ever {
+				continue // each child is spawned once, by the first incarnation that reaches Started
+			}
 			c.SpawnChild(h.producer(k), "k", h.opts(k)...)
 		}
 	}
@@ -606,7 +614,9 @@ func main() {
 	progress := flag.String("progress", "", "file receiving the id of the scenario being run")
 	settleMs := flag.Int("settle-ms", 400, "settle timeout")
 	only := flag.Int("only", -1, "run only the scenario with this id")
+	from := flag.Int("from", 0, "skip scenarios with a smaller id")
 	flag.Parse()
+	slog.SetDefault(slog.New(slog.NewTextHandler(io.Discard, nil)))
 	settle = time.Duration(*settleMs) * time.Millisecond
 
 	f, err := os.Open(*in)
@@ -644,7 +654,7 @@ func main() {
 				fmt.Fprintln(os.Stderr, "scenario:", e)
 				os.Exit(2)
 			}
-			if *only < 0 || sc.ID == *only {
+			if (*only < 0 || sc.ID == *only) && sc.ID >= *from {
 				if *progress != "" {
 					_ = os.WriteFile(*progress, []byte(fmt.Sprint(sc.ID)), 0o644)
 				}
